@@ -261,7 +261,11 @@ impl<'a> Gen<'a> {
 
     fn maybe_tick(&mut self, e: Expr, t: &Ty) -> Expr {
         // only first-order, non-union types get ticks (the tick function is declared with exactly that type)
-        let tickable = matches!(t, Ty::Int | Ty::Bool | Ty::Str | Ty::Float) || matches!(t, Ty::Arr(e) if matches!(**e, Ty::Int | Ty::Str));
+        let scalar = |t: &Ty| matches!(t, Ty::Int | Ty::Bool | Ty::Str | Ty::Float);
+        let tickable = scalar(t)
+            || matches!(t, Ty::Arr(e) if matches!(**e, Ty::Int | Ty::Str))
+            // functions over scalars (the operands of @ ? \ and $ init f are evaluated once, left to right)
+            || matches!(t, Ty::Fun(ps, r) if !ps.is_empty() && ps.iter().all(scalar) && scalar(r));
         if tickable && self.tape.chance(self.p.effects.min(9), 12) {
             let n = self.tick_index(t);
             let k = self.next_tick;
@@ -576,7 +580,13 @@ impl<'a> Gen<'a> {
 
     fn float_expr(&mut self, depth: usize) -> Expr {
         let w_it = if depth >= 2 { self.p.iterators.min(2) } else { 0 };
-        match self.tape.weighted(&[3, 3, 4, 1, w_it]) {
+        match self.tape.weighted(&[3, 3, 4, 1, w_it, 1]) {
+            5 => {
+                // NaN and the infinities have no literal: they are computed
+                self.label("NaN / infinity");
+                let (a, b) = *self.tape.pick(&[(0.0, 0.0), (1.0, 0.0), (-1.0, 0.0)]);
+                Expr::Bin("/", Box::new(Expr::Float(a)), Box::new(Expr::Float(b)))
+            }
             4 => {
                 let it = self.iter_expr(&Ty::Float, depth - 1);
                 let op = if self.tape.bool() { "$+" } else { "$*" };
@@ -607,6 +617,18 @@ impl<'a> Gen<'a> {
                 Expr::Bin(op, Box::new(self.expr(&Ty::Bool, depth - 1)), Box::new(self.expr(&Ty::Bool, depth - 1)))
             }
             4 => Expr::Not(Box::new(self.expr(&Ty::Bool, depth - 1))),
+            5 if self.tape.chance(1, 3) => {
+                // a variable compared with itself (true unless it holds NaN)
+                let vars = self.vars_of(|t| matches!(t, Ty::Float | Ty::Int | Ty::Str) || matches!(t, Ty::Arr(e) | Ty::Mut(e) if **e == Ty::Float) || matches!(t, Ty::Tup(ts) if ts.contains(&Ty::Float)));
+                let vars: Vec<Var> = vars.into_iter().filter(|v| !is_counter(&v.name)).collect();
+                if vars.is_empty() {
+                    return self.lit(&Ty::Bool);
+                }
+                let v = vars[self.tape.below(vars.len())].name.clone();
+                self.label("variable compared with itself");
+                let op = if self.tape.bool() { "==" } else { "!=" };
+                Expr::Bin(op, Box::new(Expr::Var(v.clone())), Box::new(Expr::Var(v)))
+            }
             5 => {
                 // equality of two values of the same generated type
                 let t = self.gen_ty(1);
@@ -745,11 +767,13 @@ impl<'a> Gen<'a> {
             match self.tape.weighted(&[3, 3, 1]) {
                 0 => {
                     let f = self.lambda(std::slice::from_ref(elem), elem, depth.min(1));
+                    let f = self.maybe_tick(f, &Ty::fun(vec![elem.clone()], elem.clone()));
                     self.label("map");
                     e = Expr::Map(Box::new(e), Box::new(f));
                 }
                 1 => {
                     let p = self.lambda(std::slice::from_ref(elem), &Ty::Bool, depth.min(1));
+                    let p = self.maybe_tick(p, &Ty::fun(vec![elem.clone()], Ty::Bool));
                     self.label("filter");
                     e = Expr::Filter(Box::new(e), Box::new(p));
                 }
@@ -786,9 +810,10 @@ impl<'a> Gen<'a> {
     /// an empty array whose static element type is `elem` where that matters: `[]` has element
     /// type never, and `$+` / `$*` choose their neutral element by the static element type
     fn empty_arr(&mut self, elem: &Ty) -> Expr {
+        // (`[]` itself is typed `[!]`: its elements would have a type the generator does not track)
         match elem {
-            Ty::Float | Ty::Str => Expr::Repeat(Box::new(self.lit(elem)), Box::new(Expr::Int(0))),
-            _ => Expr::Array(vec![]),
+            Ty::Never | Ty::Any => Expr::Array(vec![]),
+            _ => Expr::Repeat(Box::new(self.leaf(elem)), Box::new(Expr::Int(0))),
         }
     }
 
@@ -813,8 +838,10 @@ impl<'a> Gen<'a> {
                     3 => Expr::Post("$|", Box::new(it)),
                     _ => {
                         self.label("reduce");
-                        let f = self.lambda(&[Ty::Int, Ty::Int], &Ty::Int, depth.min(1));
+                        // operands in source order: iterator, initial value, function
                         let init = self.expr(&Ty::Int, depth - 1);
+                        let f = self.lambda(&[Ty::Int, Ty::Int], &Ty::Int, depth.min(1));
+                        let f = self.maybe_tick(f, &Ty::fun(vec![Ty::Int, Ty::Int], Ty::Int));
                         Expr::Reduce(Box::new(it), Box::new(init), Box::new(f))
                     }
                 }
@@ -902,6 +929,14 @@ impl<'a> Gen<'a> {
                     self.label("cell alias");
                     self.declare(&name, c.ty.clone());
                     return Stmt::Let(name, Box::new(Stmt::Expr(Expr::Var(c.name))));
+                }
+                if self.tape.chance(1, 8) {
+                    // `[mut int e; n]`: the value is evaluated once, the n elements are one and the same cell
+                    let n = self.tape.range(0, 3);
+                    let init = self.expr(&Ty::Int, depth.saturating_sub(1));
+                    self.label("array of one repeated cell");
+                    self.declare(&name, Ty::arr(Ty::cell(Ty::Int)));
+                    return Stmt::Let(name, Box::new(Stmt::Expr(Expr::Repeat(Box::new(Expr::MutNew(Ty::Int, Box::new(init))), Box::new(Expr::Int(n))))));
                 }
                 let inner = match self.tape.weighted(&[5, 2, 2, 1, 2]) {
                     0 => Ty::Int,
